@@ -90,9 +90,9 @@ let () = iter_lines (fun line ->
        | OClose -> Printf.printf "%s out=close tgt=- peer=- pc=1 wc=- srv=0\n" head
        | ODrop -> Printf.printf "%s out=drop tgt=- peer=- pc=0 wc=- srv=0\n" head
        | OCrash -> Printf.printf "%s out=crash\n" head
-       | OSession _ when get "pwfail" kv = "1" && r.r_tr = TTLS ->
-         (* the one Write of the reply fails: finish_tls false *)
-         let f = finish_tls false in
+       | OSession _ when (get "pwfail" kv = "1" && r.r_tr = TTLS) || (get "pwfail" kv = "2" && r.r_tr = TWS) ->
+         (* the one Write of the reply fails: finish_tls false / finish_ws false (there the 101 response went out first) *)
+         let f = if r.r_tr = TTLS then finish_tls false else finish_ws false in
          Printf.printf "%s out=session-wfail tgt=- peer=%s pc=%s wc=- srv=%s ret=%s\n" head (if f.fo_replied then "*" else "-")
            (b01 f.fo_peer_closed) (b01 f.fo_replied) (b01 f.fo_returned)
        | OSession _ -> Printf.printf "%s out=session tgt=- peer=* pc=0 wc=- srv=1\n" head
